@@ -1248,7 +1248,11 @@ class Interp:
             if contract is not None and not inline:
                 return self.registry.apply_contract(self, contract, f, args, kwargs)
             if not inline and not (caller is not None and caller.inline_all):
-                if f.closure is None:
+                # a contract-less helper of the SAME module as the function under contract is interpreted in place
+                # (its real body): an "extract function" refactoring must not turn into a checker error, and a
+                # defect moved into such a helper is still seen by the caller's obligations
+                same_module = caller is not None and q.split(":")[0] == caller.target.split(":")[0] and "." not in q.split(":", 1)[1]
+                if f.closure is None and not same_module:
                     raise NeedsContract(f"call to {q} from {caller.target if caller else '?'}: callee has no contract")
         return self.run_function(f, args, kwargs, None)
 
